@@ -65,13 +65,14 @@ func gcProbeMap(tw *TraceWriter, rnd *rand.Rand) {
 		ks[i] = k
 		m.Add(k, v)
 	}
-	// an iterator visits part of the map and is closed again
+	// First() is asked once, an iterator visits part of the map and is closed again
+	m.First()
 	it := m.Iterator()
 	for j := 0; j < n/3; j++ {
 		it.Next()
 	}
 	for _, i := range rnd.Perm(n) {
-		if i < keep {
+		if i >= n-keep { // the NEWEST entries stay: what First() and the iterator looked at goes away
 			continue
 		}
 		m.Remove(ks[i])
